@@ -137,7 +137,11 @@ impl SingleSubLowerer<'_, '_> {
 
             Err(def_id) => {
                 // exported sub
-                let sub_info = self.sub_info.unwrap();
+                let sub_info = match self.sub_info {
+                    Some(sub_info) => sub_info,
+                    // (e.g. a timeline; only subs are lowered with the information needed to call one)
+                    None => return Err(self.unsupported(stmt_span, "call to a sub from this kind of script")),
+                };
                 match self.ctx.defs.user_func_qualifier(def_id).expect("isn't user func?") {
                     Some(sp_pat!(token![inline])) => Err(self.unsupported(stmt_span, "call to inline func")),
                     Some(sp_pat!(token![const])) => panic!("leftover const func call during lowering"),
